@@ -364,10 +364,6 @@ func checkCLI(dir string, c cliCase) (o pbt.Outcome, err error) {
 		if c.Reverse {
 			args = append(args, "-r")
 		}
-		if c.Reverse && winValid(l, c.Start, c.Len) && c.Start == 0 && c.Len == l && steerAround(keyReverseWhole) {
-			o.Exclude(keyReverseWhole)
-			return o, nil
-		}
 		exp = modelWindow(&o, rows, c.Start, c.Len, c.Reverse)
 		o.Class("subseq:%s reverse=%v", winClass(l, c.Start, c.Len), c.Reverse)
 		o.NonTrivial = isBoundary(c.Start, l) || isBoundary(c.Start+c.Len, l)
@@ -388,10 +384,6 @@ func checkCLI(dir string, c cliCase) (o pbt.Outcome, err error) {
 			o.Class("subseq-ref:zero-length")
 		default:
 			ws, wn := p[c.Start], p[c.Start+c.Len-1]-p[c.Start]+1
-			if c.Reverse && ws == 0 && wn == l && steerAround(keyReverseWhole) {
-				o.Exclude(keyReverseWhole)
-				return o, nil
-			}
 			exp = modelWindow(&o, rows, ws, wn, c.Reverse)
 			if wn > c.Len {
 				o.Class("subseq-ref:valid-gap-inside-window reverse=%v", c.Reverse)
@@ -701,7 +693,9 @@ func checkCLI(dir string, c cliCase) (o pbt.Outcome, err error) {
 		defer os.RemoveAll(outDir)
 	}
 	defer os.Remove(in)
-	show := func() string { return fmt.Sprintf("goalign %s (input %s)", strings.Join(args[0:], " "), gen.Show(rows)) }
+	show := func() string {
+		return fmt.Sprintf("goalign %s (input %s)", strings.Join(args[0:], " "), gen.Show(rows))
+	}
 	if r.TimedOut {
 		return o, fmt.Errorf("%s did not return", show())
 	}
@@ -779,15 +773,6 @@ func runCLI(t *testing.T, cmds ...string) {
 }
 
 func TestCLISubseq(t *testing.T) {
-	if cli.Binary() != "" && steerAround(keyReverseWhole) {
-		// the pending / known finding: does its reproduction still fail?
-		dir := cli.TempDir("c04known")
-		in := cli.TempFile(dir, ".fa", ">a\nAC\n")
-		r := cli.Run("", "subseq", "-i", in, "-r", "-s", "0", "-l", "2")
-		if strings.Contains(r.Stderr, "panic:") && pbt.Known(keyReverseWhole) {
-			pbt.KnownFinding(t, keyReverseWhole, "goalign subseq -r with a window covering the whole alignment dereferences a nil alignment")
-		}
-	}
 	runCLI(t, "subseq", "subseq", "subseq-ref", "subseq-ref", "subseq-step")
 }
 func TestCLISubsites(t *testing.T) {
